@@ -71,6 +71,8 @@ theorem At.rdBytes {m : Mem} : ∀ {l : List UInt8} {a : Nat}, At m a l → m.rd
 /-- `m'` is `m` with at most the block bytes `[w, w+n)` changed -/
 structure Frame (m m' : Mem) (w n : Nat) : Prop where
   base : m'.base = m.base
+  sbase : m'.sbase = m.sbase
+  stab : m'.stab = m.stab
   len : m'.blk.length = m.blk.length
   same : ∀ k, (m.base + k < w ∨ w + n ≤ m.base + k) → m'.blk[k]? = m.blk[k]?
 
@@ -94,14 +96,15 @@ theorem wr8_at {m : Mem} {a : Nat} {old : UInt8} (b : UInt8) (h : At m a [old]) 
     have : i = 0 := by simpa using hi
     subst this
     simp [hlt]
-  · refine ⟨rfl, by simp, fun k hk => ?_⟩
+  · refine ⟨rfl, rfl, rfl, by simp, fun k hk => ?_⟩
     have := h.1
     simp only
     rw [List.getElem?_set_ne (by omega)]
 
 theorem Frame.trans {m m1 m2 : Mem} {w n : Nat} (f1 : Frame m m1 w 1) (f2 : Frame m1 m2 (w + 1) n) :
     Frame m m2 w (n + 1) := by
-  refine ⟨by rw [f2.base, f1.base], by rw [f2.len, f1.len], fun k hk => ?_⟩
+  refine ⟨by rw [f2.base, f1.base], by rw [f2.sbase, f1.sbase], by rw [f2.stab, f1.stab],
+    by rw [f2.len, f1.len], fun k hk => ?_⟩
   rw [f2.same k (by rw [f1.base]; omega), f1.same k (by omega)]
 
 theorem wrLE_at {n : Nat} : ∀ {m : Mem} {a : Nat} {old : List UInt8} (v : Nat), At m a old → old.length = n →
@@ -109,7 +112,7 @@ theorem wrLE_at {n : Nat} : ∀ {m : Mem} {a : Nat} {old : List UInt8} (v : Nat)
   induction n with
   | zero =>
     intro m a old v h _
-    exact ⟨m, rfl, At.nil h.1, ⟨rfl, rfl, fun _ _ => rfl⟩⟩
+    exact ⟨m, rfl, At.nil h.1, ⟨rfl, rfl, rfl, rfl, fun _ _ => rfl⟩⟩
   | succ n ih =>
     intro m a old v h hl
     match old, hl with
@@ -892,119 +895,214 @@ end Firefly.MBProof
 namespace Firefly.MBProof
 open Firefly.Multiboot Firefly.MBSpec Firefly.Gen.C10
 
-/-! ### the command line (words and separators made of single-byte runes) -/
+/-! ### the command line: `strings.Fields` over words and white-space runs (ASCII and multi-byte) -/
+
+theorem mbSpace2_cont {b c : UInt8} (h : mbSpace2 b c = true) : b = 0xC2 ∧ isCont c = true := by
+  simp only [mbSpace2, Bool.and_eq_true, Bool.or_eq_true, decide_eq_true_eq] at h
+  refine ⟨h.1, ?_⟩
+  rcases h.2 with h | h <;> subst h <;> decide
+
+theorem mbSpace3_cont {b c d : UInt8} (h : mbSpace3 b c d = true) :
+    (b = 0xE1 ∨ b = 0xE2 ∨ b = 0xE3) ∧ isCont c = true ∧ isCont d = true := by
+  simp only [mbSpace3, Bool.and_eq_true, Bool.or_eq_true, decide_eq_true_eq] at h
+  rcases h with ((⟨⟨hb, hc⟩, hd⟩ | ⟨⟨hb, hc⟩, hd⟩) | ⟨⟨hb, hc⟩, hd⟩) | ⟨⟨hb, hc⟩, hd⟩
+  · subst hb hc hd; decide
+  · subst hb hc
+    refine ⟨by decide, by decide, ?_⟩
+    rcases hd with ((hd | hd) | hd) | hd
+    · simp only [isCont, Bool.and_eq_true, decide_eq_true_eq]; omega
+    · subst hd; decide
+    · subst hd; decide
+    · subst hd; decide
+  · subst hb hc hd; decide
+  · subst hb hc hd; decide
+
+/-- nothing, or a byte that is not a UTF-8 continuation byte, comes next -/
+def startOk : List UInt8 → Bool
+  | [] => true
+  | f :: _ => !isCont f
+
+/-- a byte position that is no white space on its own stays none whatever follows the word,
+as long as what follows does not start with a continuation byte -/
+theorem spaceWidth_ctx (b : UInt8) (s F : List UInt8) (h : spaceWidth (b :: s) = 0) (hF : startOk F = true) :
+    spaceWidth (b :: (s ++ F)) = 0 := by
+  unfold spaceWidth at h ⊢
+  by_cases ha : isAsciiSpace b = true
+  · simp [ha] at h
+  · simp only [ha, Bool.false_eq_true, if_false] at h ⊢
+    have no2 : ∀ f, isCont f = false → mbSpace2 b f = false := fun f hf => by
+      cases hm : mbSpace2 b f with
+      | false => rfl
+      | true => rw [(mbSpace2_cont hm).2] at hf; cases hf
+    have no3c : ∀ f g, isCont f = false → mbSpace3 b f g = false := fun f g hf => by
+      cases hm : mbSpace3 b f g with
+      | false => rfl
+      | true => rw [(mbSpace3_cont hm).2.1] at hf; cases hf
+    have no3d : ∀ c g, isCont g = false → mbSpace3 b c g = false := fun c g hg => by
+      cases hm : mbSpace3 b c g with
+      | false => rfl
+      | true => rw [(mbSpace3_cont hm).2.2] at hg; cases hg
+    match s, F, h, hF with
+    | c :: d :: s', F, h, _ => simpa using h
+    | [c], [], h, _ => simpa using h
+    | [c], f :: F', h, hF =>
+      have hf : isCont f = false := by simpa [startOk] using hF
+      have h2 : mbSpace2 b c = false := by
+        cases hm : mbSpace2 b c with
+        | false => rfl
+        | true => simp [hm] at h
+      simp [h2, no3d c f hf]
+    | [], [], _, _ => rfl
+    | [], [f], _, hF =>
+      have hf : isCont f = false := by simpa [startOk] using hF
+      simp [no2 f hf]
+    | [], f :: g :: F', _, hF =>
+      have hf : isCont f = false := by simpa [startOk] using hF
+      simp [no2 f hf, no3c f g hf]
+
+/-- a white-space rune is recognised from its own bytes alone -/
+theorem spaceWidth_mono (l r : List UInt8) (h : spaceWidth l ≠ 0) : spaceWidth (l ++ r) = spaceWidth l := by
+  match l, h with
+  | b :: s, h =>
+    show spaceWidth (b :: (s ++ r)) = spaceWidth (b :: s)
+    unfold spaceWidth at h ⊢
+    by_cases ha : isAsciiSpace b = true
+    · simp [ha]
+    · simp only [ha, Bool.false_eq_true, if_false] at h ⊢
+      match s, r, h with
+      | c :: d :: s', r, _ => rfl
+      | [c], [], _ => rfl
+      | [c], f :: r', h =>
+        have h2 : mbSpace2 b c = true := by
+          cases hm : mbSpace2 b c with
+          | true => rfl
+          | false => simp [hm] at h
+        simp [h2]
+      | [], _, h => simp at h
+
+theorem spaceWidth_lead (b : UInt8) (r : List UInt8) (h : spaceWidth (b :: r) ≠ 0) : isCont b = false := by
+  unfold spaceWidth at h
+  by_cases ha : isAsciiSpace b = true
+  · simp only [isAsciiSpace, Bool.or_eq_true, decide_eq_true_eq] at ha
+    rcases ha with ((((ha | ha) | ha) | ha) | ha) | ha <;> subst ha <;> decide
+  · simp only [ha, Bool.false_eq_true, if_false] at h
+    have two : ∀ c, mbSpace2 b c = true → isCont b = false := fun c hm => by
+      rw [(mbSpace2_cont hm).1]; decide
+    have three : ∀ c d, mbSpace3 b c d = true → isCont b = false := fun c d hm => by
+      rcases (mbSpace3_cont hm).1 with hb | hb | hb <;> rw [hb] <;> decide
+    match r, h with
+    | c :: d :: _, h =>
+      cases h2 : mbSpace2 b c with
+      | true => exact two c h2
+      | false =>
+        cases h3 : mbSpace3 b c d with
+        | true => exact three c d h3
+        | false => simp [h2, h3] at h
+    | [c], h =>
+      cases h2 : mbSpace2 b c with
+      | true => exact two c h2
+      | false => simp [h2] at h
+    | [], h => simp at h
 
 /-- a byte that can never start a white-space rune, whatever follows it -/
 def wordByte (b : UInt8) : Bool :=
   !isAsciiSpace b && b != 0xC2 && b != 0xE1 && b != 0xE2 && b != 0xE3
 
-/-- a byte of a key or value: a word byte other than `=` -/
-def plainByte (b : UInt8) : Bool := wordByte b && b != 0x3D
-
 theorem spaceWidth_word {b : UInt8} (rest : List UInt8) (h : wordByte b = true) : spaceWidth (b :: rest) = 0 := by
-  simp only [wordByte, Bool.and_eq_true, Bool.not_eq_true', bne_iff_ne, ne_eq] at h
-  obtain ⟨⟨⟨⟨h0, h1⟩, h2⟩, h3⟩, h4⟩ := h
-  unfold spaceWidth
-  simp only [h0, Bool.false_eq_true, if_false]
-  split <;> first | rfl | contradiction
+  cases hw : spaceWidth (b :: rest) with
+  | zero => rfl
+  | succ n =>
+    exfalso
+    simp only [wordByte, Bool.and_eq_true, Bool.not_eq_true', bne_iff_ne, ne_eq] at h
+    obtain ⟨⟨⟨⟨h0, h1⟩, h2⟩, h3⟩, h4⟩ := h
+    unfold spaceWidth at hw
+    simp only [h0, Bool.false_eq_true, if_false] at hw
+    have two : ∀ c, mbSpace2 b c = false := fun c => by
+      cases hm : mbSpace2 b c with
+      | false => rfl
+      | true => exact absurd (mbSpace2_cont hm).1 h1
+    have three : ∀ c d, mbSpace3 b c d = false := fun c d => by
+      cases hm : mbSpace3 b c d with
+      | false => rfl
+      | true => rcases (mbSpace3_cont hm).1 with hb | hb | hb <;> contradiction
+    match rest, hw with
+    | c :: d :: _, hw => simp [two, three] at hw
+    | [c], hw => simp [two] at hw
+    | [], hw => simp at hw
 
-theorem spaceWidth_space {b : UInt8} (rest : List UInt8) (h : isAsciiSpace b = true) : spaceWidth (b :: rest) = 1 := by
-  unfold spaceWidth; simp [h]
+/-- no position of the word `w`, read together with what follows it (`F`), starts a white-space rune -/
+def noSpaceCtx : List UInt8 → List UInt8 → Prop
+  | [], _ => True
+  | b :: w, F => spaceWidth (b :: (w ++ F)) = 0 ∧ noSpaceCtx w F
 
-theorem fieldsGo_word : ∀ (w rest cur : List UInt8), (∀ b ∈ w, wordByte b = true) →
-    fieldsGo (w ++ rest) 0 cur = fieldsGo rest 0 (w.reverse ++ cur) := by
-  intro w
-  induction w with
-  | nil => intro rest cur _; rfl
-  | cons b w ih =>
-    intro rest cur h
-    have hb := spaceWidth_word (w ++ rest) (h b (by simp))
-    simp only [List.cons_append, fieldsGo, hb, if_true]
-    rw [ih rest (b :: cur) (fun x hx => h x (List.mem_cons_of_mem _ hx))]
-    simp
+theorem noSpaceCtx_of_in : ∀ (p G : List UInt8), noSpaceIn p = true → startOk G = true → noSpaceCtx p G := by
+  intro p
+  induction p with
+  | nil => intro _ _ _; trivial
+  | cons b p ih =>
+    intro G h hG
+    simp only [noSpaceIn, Bool.and_eq_true, decide_eq_true_eq] at h
+    exact ⟨spaceWidth_ctx b p G h.1 hG, ih G h.2 hG⟩
 
-theorem fieldsGo_spaces : ∀ (s rest : List UInt8), (∀ b ∈ s, isAsciiSpace b = true) →
-    fieldsGo (s ++ rest) 0 [] = fieldsGo rest 0 [] := by
-  intro s
-  induction s with
-  | nil => intro rest _; rfl
-  | cons b s ih =>
-    intro rest h
-    have hb := spaceWidth_space (s ++ rest) (h b (by simp))
-    simp only [List.cons_append, fieldsGo, hb]
-    simp only [Nat.succ_ne_zero, if_false, List.isEmpty_nil, if_true, Nat.sub_self]
-    exact ih rest (fun x hx => h x (List.mem_cons_of_mem _ hx))
+theorem noSpaceCtx_append : ∀ (p q F : List UInt8), noSpaceCtx p (q ++ F) → noSpaceCtx q F →
+    noSpaceCtx (p ++ q) F := by
+  intro p
+  induction p with
+  | nil => intro q F _ h; exact h
+  | cons b p ih =>
+    intro q F h1 h2
+    refine ⟨?_, ih q F h1.2 h2⟩
+    show spaceWidth (b :: ((p ++ q) ++ F)) = 0
+    rw [List.append_assoc]; exact h1.1
 
-def tokPlain (t : CmdTok) : Bool := t.parts.all (·.all plainByte) && t.sep.all isAsciiSpace
-
-/-- every word is made of plain bytes and `=`, is not empty, and is followed by at least one
-ASCII blank unless it is the last one -/
-def toksPlain : List CmdTok → Bool
-  | [] => true
-  | [t] => tokPlain t && tokText t ≠ []
-  | t :: u :: rest => tokPlain t && tokText t ≠ [] && t.sep ≠ [] && toksPlain (u :: rest)
-
-theorem joinEq_word : ∀ parts : List (List UInt8), (∀ p ∈ parts, ∀ b ∈ p, plainByte b = true) →
-    ∀ b ∈ joinEq parts, wordByte b = true := by
+theorem noSpaceCtx_join (F : List UInt8) (hF : startOk F = true) : ∀ parts : List (List UInt8),
+    (∀ p ∈ parts, noSpaceIn p = true) → noSpaceCtx (joinEq parts) F := by
   intro parts
   induction parts with
-  | nil => intro _ b hb; simp [joinEq] at hb
+  | nil => intro _; trivial
   | cons p ps ih =>
-    intro h b hb
-    have hp : ∀ b ∈ p, wordByte b = true := fun b hb => by
-      have := h p (by simp) b hb
-      simp only [plainByte, Bool.and_eq_true] at this; exact this.1
-    cases ps with
-    | nil => exact hp b (by simpa [joinEq] using hb)
-    | cons q rest =>
-      simp only [joinEq, List.mem_append, List.mem_cons] at hb
-      rcases hb with hb | hb | hb
-      · exact hp b hb
-      · subst hb; decide
-      · exact ih (fun x hx => h x (List.mem_cons_of_mem _ hx)) b hb
-
-theorem tokPlain_iff {t : CmdTok} (h : tokPlain t = true) :
-    (∀ p ∈ t.parts, ∀ b ∈ p, plainByte b = true) ∧ (∀ b ∈ t.sep, isAsciiSpace b = true) := by
-  simpa [tokPlain, List.all_eq_true] using h
-
-theorem fields_toks : ∀ toks : List CmdTok, toksPlain toks = true →
-    fieldsGo (toks.flatMap fun t => tokText t ++ t.sep) 0 [] = toks.map tokText := by
-  intro toks
-  induction toks with
-  | nil => intro _; rfl
-  | cons t rest ih =>
     intro h
-    have step : ∀ more : List UInt8, tokPlain t = true → tokText t ≠ [] → (t.sep ≠ [] ∨ more = []) →
-        fieldsGo ((tokText t ++ t.sep) ++ more) 0 [] = tokText t :: fieldsGo more 0 [] := by
-      intro more hp hne hsep
-      obtain ⟨hparts, hs⟩ := tokPlain_iff hp
-      have hw : ∀ b ∈ tokText t, wordByte b = true := joinEq_word _ hparts
-      rw [List.append_assoc, fieldsGo_word _ _ _ hw, List.append_nil]
-      have hre : (tokText t).reverse.isEmpty = false := by
-        cases hw : tokText t with
-        | nil => exact absurd hw hne
-        | cons a l => simp
-      cases hsp : t.sep with
-      | nil =>
-        rcases hsep with hsep | hsep
-        · exact absurd hsp hsep
-        · subst hsep; simp [fieldsGo, hre]
-      | cons b s =>
-        rw [hsp] at hs
-        have hb := spaceWidth_space (s ++ more) (hs b (by simp))
-        simp only [List.cons_append, fieldsGo, hb, hre]
-        simp only [Nat.succ_ne_zero, if_false, Bool.false_eq_true, List.reverse_reverse, Nat.sub_self]
-        rw [fieldsGo_spaces s more (fun x hx => hs x (List.mem_cons_of_mem _ hx))]
-    cases rest with
-    | nil =>
-      simp only [toksPlain, Bool.and_eq_true, decide_eq_true_eq] at h
-      have := step [] h.1 h.2 (Or.inr rfl)
-      simpa [fieldsGo] using this
-    | cons u rest' =>
-      simp only [toksPlain, Bool.and_eq_true, decide_eq_true_eq] at h
-      obtain ⟨⟨⟨h1, h2⟩, h3⟩, h4⟩ := h
-      simp only [List.flatMap_cons, List.map_cons] at ih ⊢
-      rw [step _ h1 h2 (Or.inl h3), ih h4]
+    cases ps with
+    | nil => exact noSpaceCtx_of_in p F (h p (by simp)) hF
+    | cons q rest =>
+      simp only [joinEq]
+      apply noSpaceCtx_append
+      · exact noSpaceCtx_of_in p _ (h p (by simp)) (by simp [startOk, isCont])
+      · exact ⟨spaceWidth_word _ (by decide), ih (fun x hx => h x (List.mem_cons_of_mem _ hx))⟩
+
+theorem fieldsGo_word : ∀ (w F cur : List UInt8), noSpaceCtx w F →
+    fieldsGo (w ++ F) 0 cur = fieldsGo F 0 (w.reverse ++ cur) := by
+  intro w
+  induction w with
+  | nil => intro F cur _; rfl
+  | cons b w ih =>
+    intro F cur h
+    simp only [List.cons_append, fieldsGo, h.1, if_true]
+    rw [ih F (b :: cur) h.2]
+    simp
+
+/-- a complete run of white-space runes is skipped (`k` = bytes of a rune still to skip) -/
+theorem fieldsGo_run : ∀ (s : List UInt8) (k : Nat) (rest : List UInt8), spaceRun s k = true →
+    fieldsGo (s ++ rest) k [] = fieldsGo rest 0 [] := by
+  intro s
+  induction s with
+  | nil =>
+    intro k rest h
+    have : k = 0 := by simpa [spaceRun] using h
+    subst this; rfl
+  | cons b s ih =>
+    intro k rest h
+    cases k with
+    | succ k =>
+      simp only [spaceRun] at h
+      simp only [List.cons_append, fieldsGo]
+      exact ih k rest h
+    | zero =>
+      simp only [spaceRun, Bool.and_eq_true, decide_eq_true_eq, ne_eq] at h
+      have hm := spaceWidth_mono (b :: s) rest h.1
+      simp only [List.cons_append] at hm
+      simp only [List.cons_append, fieldsGo, hm, h.1, if_false, List.isEmpty_nil, if_true]
+      exact ih _ rest h.2
 
 theorem splitEq_ne_nil : ∀ l : List UInt8, splitEq l ≠ [] := by
   intro l
@@ -1021,20 +1119,18 @@ theorem splitEq_cons (b : UInt8) (r : List UInt8) : splitEq (b :: r) =
     | hd :: tl => if b = 0x3D then [] :: hd :: tl else (b :: hd) :: tl
     | [] => [[b]] := by rw [splitEq]; rfl
 
-theorem splitEq_plain : ∀ p : List UInt8, (∀ b ∈ p, plainByte b = true) → splitEq p = [p] := by
+theorem splitEq_plain : ∀ p : List UInt8, (∀ b ∈ p, b ≠ 0x3D) → splitEq p = [p] := by
   intro p
   induction p with
   | nil => intro _; rfl
   | cons b p ih =>
     intro h
-    have hb : b ≠ 0x3D := by
-      have := h b (by simp)
-      simp only [plainByte, Bool.and_eq_true, bne_iff_ne, ne_eq] at this; exact this.2
+    have hb : b ≠ 0x3D := h b (by simp)
     unfold splitEq
     rw [ih (fun x hx => h x (List.mem_cons_of_mem _ hx))]
     simp [hb]
 
-theorem splitEq_append : ∀ (p r : List UInt8), (∀ b ∈ p, plainByte b = true) →
+theorem splitEq_append : ∀ (p r : List UInt8), (∀ b ∈ p, b ≠ 0x3D) →
     splitEq (p ++ 0x3D :: r) = p :: splitEq r := by
   intro p
   induction p with
@@ -1047,14 +1143,12 @@ theorem splitEq_append : ∀ (p r : List UInt8), (∀ b ∈ p, plainByte b = tru
     | cons hd tl => simp
   | cons b p ih =>
     intro r h
-    have hb : b ≠ 0x3D := by
-      have := h b (by simp)
-      simp only [plainByte, Bool.and_eq_true, bne_iff_ne, ne_eq] at this; exact this.2
+    have hb : b ≠ 0x3D := h b (by simp)
     simp only [List.cons_append]
     rw [splitEq_cons, ih r (fun x hx => h x (List.mem_cons_of_mem _ hx))]
     simp [hb]
 
-theorem splitEq_joinEq : ∀ parts : List (List UInt8), parts ≠ [] → (∀ p ∈ parts, ∀ b ∈ p, plainByte b = true) →
+theorem splitEq_joinEq : ∀ parts : List (List UInt8), parts ≠ [] → (∀ p ∈ parts, ∀ b ∈ p, b ≠ 0x3D) →
     splitEq (joinEq parts) = parts := by
   intro parts
   induction parts with
@@ -1067,16 +1161,78 @@ theorem splitEq_joinEq : ∀ parts : List (List UInt8), parts ≠ [] → (∀ p 
       simp only [joinEq]
       rw [splitEq_append p _ (h p (by simp)), ih (by simp) (fun x hx => h x (List.mem_cons_of_mem _ hx))]
 
-theorem kvStep_tok (acc : KV) (t : CmdTok) (hp : tokPlain t = true) (hne : tokText t ≠ []) :
+/-- what `tokOk` says about a word, as propositions -/
+theorem tokOk_iff {last : Bool} {t : CmdTok} (h : tokOk last t = true) :
+    (∀ p ∈ t.parts, (∀ b ∈ p, b ≠ 0x3D) ∧ noSpaceIn p = true) ∧ tokText t ≠ [] ∧
+    spaceRun t.sep 0 = true ∧ (last = true ∨ t.sep ≠ []) := by
+  simp only [tokOk, partOk, Bool.and_eq_true, List.all_eq_true, decide_eq_true_eq, Bool.or_eq_true,
+    ne_eq] at h
+  obtain ⟨⟨⟨h1, h2⟩, h3⟩, h4⟩ := h
+  exact ⟨fun p hp => ⟨fun b hb => ((h1 p hp).1 b hb).2, (h1 p hp).2⟩, h2, h3, h4⟩
+
+theorem kvStep_tok (acc : KV) (t : CmdTok) (hp : ∀ p ∈ t.parts, ∀ b ∈ p, b ≠ 0x3D) (hne : tokText t ≠ []) :
     kvStep acc (tokText t) = tokKV acc t := by
   have hparts : t.parts ≠ [] := by
     intro h; apply hne; simp [tokText, h, joinEq]
   unfold kvStep tokKV tokText
-  rw [splitEq_joinEq t.parts hparts (tokPlain_iff hp).1]
+  rw [splitEq_joinEq t.parts hparts hp]
   rfl
 
-theorem toksPlain_mem : ∀ toks : List CmdTok, toksPlain toks = true →
-    ∀ t ∈ toks, tokPlain t = true ∧ tokText t ≠ [] := by
+/-- one word followed by its separator and whatever comes after -/
+theorem fields_step (t : CmdTok) (more : List UInt8) {last : Bool} (h : tokOk last t = true)
+    (hl : last = true → more = []) :
+    fieldsGo ((tokText t ++ t.sep) ++ more) 0 [] = tokText t :: fieldsGo more 0 [] := by
+  obtain ⟨hparts, hne, hrun, hsep⟩ := tokOk_iff h
+  have hre : (tokText t).reverse.isEmpty = false := by
+    cases hw : tokText t with
+    | nil => exact absurd hw hne
+    | cons a l => simp
+  have hstart : startOk (t.sep ++ more) = true := by
+    cases hs : t.sep with
+    | nil =>
+      rcases hsep with hsep | hsep
+      · rw [hl hsep]; rfl
+      · exact absurd hs hsep
+    | cons b s =>
+      rw [hs] at hrun
+      simp only [spaceRun, Bool.and_eq_true, decide_eq_true_eq, ne_eq] at hrun
+      simp [startOk, spaceWidth_lead b s hrun.1]
+  have hctx : noSpaceCtx (tokText t) (t.sep ++ more) :=
+    noSpaceCtx_join _ hstart t.parts (fun p hp => (hparts p hp).2)
+  rw [List.append_assoc, fieldsGo_word _ _ _ hctx, List.append_nil]
+  cases hs : t.sep with
+  | nil =>
+    rcases hsep with hsep | hsep
+    · rw [hl hsep]; simp [fieldsGo, hre]
+    · exact absurd hs hsep
+  | cons b s =>
+    rw [hs] at hrun
+    simp only [spaceRun, Bool.and_eq_true, decide_eq_true_eq, ne_eq] at hrun
+    have hm := spaceWidth_mono (b :: s) more hrun.1
+    simp only [List.cons_append] at hm
+    simp only [List.cons_append, fieldsGo, hm, hrun.1, if_false, hre, Bool.false_eq_true,
+      List.reverse_reverse]
+    rw [fieldsGo_run s _ more hrun.2]
+
+theorem fields_toks : ∀ toks : List CmdTok, toksOk toks = true →
+    fieldsGo (toks.flatMap fun t => tokText t ++ t.sep) 0 [] = toks.map tokText := by
+  intro toks
+  induction toks with
+  | nil => intro _; rfl
+  | cons t rest ih =>
+    intro h
+    cases rest with
+    | nil =>
+      simp only [toksOk] at h
+      have := fields_step t [] h (fun _ => rfl)
+      simpa [fieldsGo] using this
+    | cons u rest' =>
+      simp only [toksOk, Bool.and_eq_true] at h
+      simp only [List.flatMap_cons, List.map_cons] at ih ⊢
+      rw [fields_step t _ h.1 (fun hl => by cases hl), ih h.2]
+
+theorem toksOk_mem : ∀ toks : List CmdTok, toksOk toks = true →
+    ∀ t ∈ toks, (∀ p ∈ t.parts, ∀ b ∈ p, b ≠ 0x3D) ∧ tokText t ≠ [] := by
   intro toks
   induction toks with
   | nil => intro _ t ht; simp at ht
@@ -1084,16 +1240,21 @@ theorem toksPlain_mem : ∀ toks : List CmdTok, toksPlain toks = true →
     intro h t ht
     cases rest with
     | nil =>
-      simp only [toksPlain, Bool.and_eq_true, decide_eq_true_eq] at h
+      simp only [toksOk] at h
       have : t = u := by simpa using ht
-      subst this; exact h
+      subst this
+      obtain ⟨h1, h2, _⟩ := tokOk_iff h
+      exact ⟨fun p hp => (h1 p hp).1, h2⟩
     | cons v rest' =>
-      simp only [toksPlain, Bool.and_eq_true, decide_eq_true_eq] at h
+      simp only [toksOk, Bool.and_eq_true] at h
       rcases List.mem_cons.1 ht with ht | ht
-      · subst ht; exact ⟨h.1.1.1, h.1.1.2⟩
+      · subst ht
+        obtain ⟨h1, h2, _⟩ := tokOk_iff h.1
+        exact ⟨fun p hp => (h1 p hp).1, h2⟩
       · exact ih h.2 t ht
 
-theorem foldl_toks : ∀ (toks : List CmdTok) (acc : KV), (∀ t ∈ toks, tokPlain t = true ∧ tokText t ≠ []) →
+theorem foldl_toks : ∀ (toks : List CmdTok) (acc : KV),
+    (∀ t ∈ toks, (∀ p ∈ t.parts, ∀ b ∈ p, b ≠ 0x3D) ∧ tokText t ≠ []) →
     (toks.map tokText).foldl kvStep acc = toks.foldl tokKV acc := by
   intro toks
   induction toks with
@@ -1104,12 +1265,12 @@ theorem foldl_toks : ∀ (toks : List CmdTok) (acc : KV), (∀ t ∈ toks, tokPl
     rw [kvStep_tok acc t (h t (by simp)).1 (h t (by simp)).2]
     exact ih _ (fun x hx => h x (List.mem_cons_of_mem _ hx))
 
-/-- the command-line text made of a run of ASCII blanks and plain words parses into the
-key/value map the words denote -/
-theorem parseCmdLine_text (lead : List UInt8) (toks : List CmdTok) (hl : ∀ b ∈ lead, isAsciiSpace b = true)
-    (ht : toksPlain toks = true) : parseCmdLine (cmdText lead toks) = toks.foldl tokKV [] := by
+/-- the text of a well-formed command line (white-space runs of any `unicode.IsSpace` runes,
+words of arbitrary other bytes) parses into the key/value map its words denote -/
+theorem parseCmdLine_text (lead : List UInt8) (toks : List CmdTok) (hl : spaceRun lead 0 = true)
+    (ht : toksOk toks = true) : parseCmdLine (cmdText lead toks) = toks.foldl tokKV [] := by
   unfold parseCmdLine fields cmdText
-  rw [fieldsGo_spaces lead _ hl, fields_toks toks ht, foldl_toks toks [] (toksPlain_mem toks ht)]
+  rw [fieldsGo_run lead 0 _ hl, fields_toks toks ht, foldl_toks toks [] (toksOk_mem toks ht)]
 
 end Firefly.MBProof
 
@@ -1147,27 +1308,333 @@ theorem bootCmdLine_encode {base sbase : Nat} {stab : List UInt8} {ts : List Tag
     simp only [hn0, if_false, e]
     rw [hat.left.rdBytes]
 
-/-- the first command-line tag consists of ASCII blanks and words without multi-byte
-white-space lead bytes (decidable) -/
-def cmdPlain (ts : List Tag) : Bool :=
-  match firstOf 1 ts with
-  | some (.cmd lead toks) => lead.all isAsciiSpace && toksPlain toks
-  | _ => true
+theorem mem_of_first {t : Nat} {ts : List Tag} {x : Tag} (h : firstOf t ts = some x) : x ∈ ts := by
+  induction ts with
+  | nil => cases h
+  | cons y ys ih =>
+    unfold firstOf at h
+    split at h
+    · injection h with h; subst h; simp
+    · exact List.mem_cons_of_mem _ (ih h)
 
-theorem cmd_plain {ts : List Tag} (hp : cmdPlain ts = true) : specCmdText ts = expCmd ts := by
+theorem cmd_wf {base sbase : Nat} {stab : List UInt8} {ts : List Tag} (h : wf base sbase stab ts = true) :
+    specCmdText ts = expCmd ts := by
   unfold specCmdText expCmd
-  unfold cmdPlain at hp
   cases hf : firstOf 1 ts with
   | none => rfl
   | some x =>
-    rw [hf] at hp
+    have hw := tag_wf_of_wf h (mem_of_first hf)
     cases x with
     | cmd lead toks =>
-      simp only [Bool.and_eq_true, List.all_eq_true] at hp
-      exact parseCmdLine_text lead toks hp.1 hp.2
+      simp only [Tag.wf, Bool.and_eq_true] at hw
+      exact parseCmdLine_text lead toks hw.1 hw.2
     | mmap => rfl
     | fb => rfl
     | elf => rfl
     | other => rfl
+
+end Firefly.MBProof
+
+namespace Firefly.MBProof
+open Firefly.Multiboot Firefly.MBSpec Firefly.Gen.C10
+
+/-! ### what `VisitMemRegions` leaves in memory -/
+
+theorem At.of_blk {m : Mem} {A l B : List UInt8} (h : m.blk = A ++ l ++ B) : At m (m.base + A.length) l := by
+  have := At.self m
+  rw [h] at this
+  exact this.left.right
+
+/-- a store confined to the window `l` of the block replaces exactly that window -/
+theorem blk_eq_of_frame {m m' : Mem} {A l l' B : List UInt8} {w : Nat}
+    (f : Frame m m' w l.length) (hb : m.blk = A ++ l ++ B) (hw : w = m.base + A.length)
+    (hl : l'.length = l.length) (ha : At m' w l') : m'.blk = A ++ l' ++ B := by
+  apply List.ext_getElem?
+  intro k
+  rcases Nat.lt_or_ge k A.length with h1 | h1
+  · rw [f.same k (Or.inl (by omega)), hb]
+    simp [List.getElem?_append_left, h1]
+  · rcases Nat.lt_or_ge k (A.length + l.length) with h2 | h2
+    · have := ha.2 (k - A.length) (by omega)
+      have e : w - m'.base + (k - A.length) = k := by rw [f.base]; omega
+      rw [e] at this; rw [this]
+      rw [List.append_assoc, List.getElem?_append_right h1, List.getElem?_append_left (by omega)]
+      simp
+    · rw [f.same k (Or.inr (by omega)), hb]
+      rw [List.getElem?_append_right (by simp; omega), List.getElem?_append_right (by simp; omega)]
+      simp [hl]
+
+theorem length_encEntry {esz : Nat} (hesz : 20 ≤ esz) (e : MemEntry) : (encEntry esz e).length = esz := by
+  simp [encEntry, length_le]; omega
+
+theorem length_normEnts : ∀ (k : Nat) (ents : List MemEntry), (normEnts k ents).length = ents.length := by
+  intro k ents
+  induction ents generalizing k with
+  | nil => cases k <;> rfl
+  | cons e rest ih => cases k with
+    | zero => rfl
+    | succ k => simp [normEnts, ih]
+
+/-- the memory after the walk: same areas, and the entry bytes `A ++ · ++ B` encode the entries
+with the first `visited` types normalised -/
+def Post (m : Mem) (A B : List UInt8) (esz : Nat) (ents : List MemEntry) (r : List Region × Status × Mem) : Prop :=
+  r.2.2.base = m.base ∧ r.2.2.sbase = m.sbase ∧ r.2.2.stab = m.stab ∧
+  r.2.2.blk = A ++ (normEnts r.1.length ents).flatMap (encEntry esz) ++ B
+
+theorem memLoop_mem {hdr esz endp : Nat} (hesz : 20 ≤ esz) (hesz32 : esz < 2^32) :
+    ∀ (ents : List MemEntry) (m : Mem) (cur stop fuel : Nat) (A B : List UInt8),
+      m.blk = A ++ ents.flatMap (encEntry esz) ++ B → cur = m.base + A.length →
+      At m hdr (le 4 esz) → hdr + 4 ≤ cur →
+      (∀ e ∈ ents, e.addr < 2^64 ∧ e.len < 2^64 ∧ e.ty < 2^32) → ents.length < fuel →
+      endp = cur + ents.length * esz → endp < 2^64 →
+      Post m A B esz ents (memLoop hdr endp fuel m cur stop) := by
+  intro ents
+  induction ents with
+  | nil =>
+    intro m cur stop fuel A B hblk _ _ _ _ hf he _
+    match fuel, hf with
+    | f + 1, _ => simp [memLoop, he, Post, normEnts, hblk]
+  | cons e rest ih =>
+    intro m cur stop fuel A B hblk hcur hh hc hok hf he hlt
+    match fuel, hf with
+    | f + 1, hf =>
+      simp only [List.length_cons, Nat.succ_mul] at he
+      have hne : cur ≠ endp := by omega
+      obtain ⟨hea, hel, het⟩ := hok e (by simp)
+      have hAt : At m cur ((e :: rest).flatMap (encEntry esz)) := by
+        rw [hcur]; exact At.of_blk hblk
+      have hE : At m cur (le 8 e.addr ++ (le 8 e.len ++ (le 4 e.ty ++
+          (List.replicate (esz - 20) 0xEE ++ rest.flatMap (encEntry esz))))) := by
+        simpa [encEntry] using hAt
+      have hT : At m (cur + 16) (le 4 e.ty) := by
+        have := hE.right.right.left; simpa [length_le, Nat.add_assoc] using this
+      have hrl := length_encEntries hesz rest
+      -- the continuation, for any memory that holds the (normalised) entry followed by the rest
+      have main : ∀ m1 : Mem, m1.base = m.base → m1.sbase = m.sbase → m1.stab = m.stab →
+          m1.blk = (A ++ encEntry esz { e with ty := normType e.ty }) ++ rest.flatMap (encEntry esz) ++ B →
+          At m1 hdr (le 4 esz) →
+          Post m A B esz (e :: rest) (memAfter m1 hdr cur stop (normType e.ty) (memLoop hdr endp f)) := by
+        intro m1 hb1 hsb1 hst1 hblk1 hh1
+        have hlen' : (encEntry esz { e with ty := normType e.ty }).length = esz := length_encEntry hesz _
+        have hAt1 : At m1 cur (encEntry esz { e with ty := normType e.ty } ++ rest.flatMap (encEntry esz)) := by
+          have : m1.blk = A ++ (encEntry esz { e with ty := normType e.ty } ++ rest.flatMap (encEntry esz)) ++ B := by
+            rw [hblk1]; simp [List.append_assoc]
+          have := At.of_blk this
+          rwa [hb1, ← hcur] at this
+        have hE1 : At m1 cur (le 8 e.addr ++ (le 8 e.len ++ (le 4 (normType e.ty) ++
+            (List.replicate (esz - 20) 0xEE ++ rest.flatMap (encEntry esz))))) := by
+          simpa [encEntry] using hAt1
+        have hA1 : At m1 cur (le 8 e.addr) := hE1.left
+        have hL1 : At m1 (cur + 8) (le 8 e.len) := by
+          have := hE1.right.left; simpa [length_le] using this
+        rw [memAfter_enc hh1 hA1 hL1 hesz32 hea hel (by omega)]
+        by_cases hs : stop = 1
+        · simp only [hs, if_true, Post, List.length_singleton, normEnts]
+          refine ⟨hb1, hsb1, hst1, ?_⟩
+          rw [hblk1]; simp [List.append_assoc]
+        · simp only [hs, if_false]
+          have ihr := ih m1 (cur + esz) (stop - 1) f (A ++ encEntry esz { e with ty := normType e.ty }) B hblk1
+            (by rw [hb1, List.length_append, hlen']; omega) hh1 (by omega)
+            (fun x hx => hok x (List.mem_cons_of_mem _ hx)) (by simpa using hf) (by omega) hlt
+          obtain ⟨i1, i2, i3, i4⟩ := ihr
+          refine ⟨by rw [i1, hb1], by rw [i2, hsb1], by rw [i3, hst1], ?_⟩
+          simp only [List.length_cons, normEnts, List.flatMap_cons]
+          rw [i4]; simp [List.append_assoc]
+      unfold memLoop
+      rw [if_neg hne]
+      simp only [offEntType]
+      rw [hT.rdLE het]
+      simp only []
+      by_cases hn : needsNorm e.ty = true
+      · obtain ⟨m1, hw, a1, fr⟩ := wrLE_at memReserved hT (length_le 4 e.ty)
+        rw [if_pos hn, hw]
+        simp only []
+        have hty : memReserved = normType e.ty := by rw [← norm_eq, if_pos hn]
+        rw [hty] at a1 ⊢
+        have hb : m.blk = (A ++ (le 8 e.addr ++ le 8 e.len)) ++ le 4 e.ty ++
+            (List.replicate (esz - 20) 0xEE ++ (rest.flatMap (encEntry esz) ++ B)) := by
+          rw [hblk]; simp [encEntry, List.append_assoc]
+        have fr' : Frame m m1 (cur + 16) (le 4 e.ty).length := by rw [length_le]; exact fr
+        have hblk1 := blk_eq_of_frame fr' hb (by simp [length_le]; omega) (by simp [length_le]) a1
+        apply main m1 fr.base fr.sbase fr.stab _ (fr.at hh (Or.inl (by simp [length_le]; omega)))
+        rw [hblk1]; simp [encEntry, List.append_assoc]
+      · rw [if_neg hn]
+        have hty : e.ty = normType e.ty := by rw [← norm_eq, if_neg hn]
+        have he' : ({ e with ty := normType e.ty } : MemEntry) = e := by rw [← hty]
+        have := main m rfl rfl rfl (by rw [he', hblk]; simp [List.append_assoc]) hh
+        rw [← hty] at this
+        exact this
+
+end Firefly.MBProof
+
+namespace Firefly.MBProof
+open Firefly.Multiboot Firefly.MBSpec Firefly.Gen.C10
+
+theorem split_first {t : Nat} : ∀ {ts : List Tag} {x : Tag}, firstOf t ts = some x →
+    ∃ pre post, ts = pre ++ x :: post ∧ ∀ y ∈ pre, y.typeNo ≠ t := by
+  intro ts
+  induction ts with
+  | nil => intro x h; cases h
+  | cons y ys ih =>
+    intro x h
+    unfold firstOf at h
+    split at h
+    · injection h with h; subst h
+      exact ⟨[], ys, rfl, by simp⟩
+    · rename_i hy
+      obtain ⟨pre, post, e, hp⟩ := ih h
+      refine ⟨y :: pre, post, by rw [e]; rfl, ?_⟩
+      intro z hz
+      rcases List.mem_cons.1 hz with hz | hz
+      · subst hz; exact hy
+      · exact hp z hz
+
+theorem normFirst_none (k : Nat) : ∀ ts : List Tag, (∀ y ∈ ts, y.typeNo ≠ 6) → normFirst k ts = ts := by
+  intro ts
+  induction ts with
+  | nil => intro _; rfl
+  | cons y ys ih =>
+    intro h
+    have hy := h y (by simp)
+    cases y with
+    | mmap => simp [Tag.typeNo] at hy
+    | fb => simp only [normFirst]; rw [ih (fun z hz => h z (List.mem_cons_of_mem _ hz))]
+    | cmd => simp only [normFirst]; rw [ih (fun z hz => h z (List.mem_cons_of_mem _ hz))]
+    | elf => simp only [normFirst]; rw [ih (fun z hz => h z (List.mem_cons_of_mem _ hz))]
+    | other => simp only [normFirst]; rw [ih (fun z hz => h z (List.mem_cons_of_mem _ hz))]
+
+theorem normFirst_split (k : Nat) (esz ver : Nat) (ents : List MemEntry) (post : List Tag) :
+    ∀ pre : List Tag, (∀ y ∈ pre, y.typeNo ≠ 6) →
+    normFirst k (pre ++ .mmap esz ver ents :: post) = pre ++ .mmap esz ver (normEnts k ents) :: post := by
+  intro pre
+  induction pre with
+  | nil => intro _; rfl
+  | cons y ys ih =>
+    intro h
+    have hy := h y (by simp)
+    have := ih (fun z hz => h z (List.mem_cons_of_mem _ hz))
+    cases y with
+    | mmap => simp [Tag.typeNo] at hy
+    | fb => simp only [List.cons_append, normFirst]; rw [this]
+    | cmd => simp only [List.cons_append, normFirst]; rw [this]
+    | elf => simp only [List.cons_append, normFirst]; rw [this]
+    | other => simp only [List.cons_append, normFirst]; rw [this]
+
+/-- everything of the encoded block in front of the entries of the memory map `pre ++ mmap :: post` -/
+def mmapA (pre post : List Tag) (esz ver n : Nat) : List UInt8 :=
+  le 4 (16 + ((encTags pre).length + (8 + (8 + n * esz) + padLen (8 + n * esz) + (encTags post).length))) ++
+  (le 4 0 ++ (encTags pre ++ (le 4 6 ++ (le 4 (8 + (8 + n * esz)) ++ (le 4 esz ++ le 4 ver)))))
+
+/-- everything behind them -/
+def mmapB (post : List Tag) (esz n : Nat) : List UInt8 :=
+  List.replicate (padLen (8 + n * esz)) 0xA5 ++ (encTags post ++ endTag)
+
+theorem encode_mmap_split {esz : Nat} (hesz : 20 ≤ esz) (pre post : List Tag) (ver : Nat) (ents : List MemEntry) :
+    encode (pre ++ .mmap esz ver ents :: post) =
+      mmapA pre post esz ver ents.length ++ ents.flatMap (encEntry esz) ++ mmapB post esz ents.length := by
+  have hbl : (Tag.mmap esz ver ents).body.length = 8 + ents.length * esz := by
+    simp [Tag.body, length_le, length_encEntries hesz]; omega
+  have htag : encTag (.mmap esz ver ents) = le 4 6 ++ (le 4 (8 + (8 + ents.length * esz)) ++ (le 4 esz ++ (le 4 ver ++
+      (ents.flatMap (encEntry esz) ++ List.replicate (padLen (8 + ents.length * esz)) 0xA5)))) := by
+    unfold encTag; rw [hbl]; simp [Tag.body, Tag.typeNo, List.append_assoc]
+  have hts : encTags (pre ++ .mmap esz ver ents :: post) = encTags pre ++ (encTag (.mmap esz ver ents) ++ encTags post) := by
+    simp [encTags]
+  have hlen : (encTags (pre ++ .mmap esz ver ents :: post)).length =
+      (encTags pre).length + (8 + (8 + ents.length * esz) + padLen (8 + ents.length * esz) + (encTags post).length) := by
+    rw [hts]; simp only [List.length_append, length_encTag, hbl] <;> omega
+  unfold encode mmapA mmapB
+  rw [hlen, hts, htag]
+  simp [List.append_assoc]
+
+theorem mem_eq {m' : Mem} {b sb : Nat} {l st : List UInt8} (h1 : m'.base = b) (h2 : m'.blk = l)
+    (h3 : m'.sbase = sb) (h4 : m'.stab = st) : m' = ⟨b, l, sb, st⟩ := by
+  cases m'; simp_all
+
+/-- the memory `VisitMemRegions` leaves behind is the encoding of the tag list with the types of
+the entries shown to the visitor normalised -/
+theorem visitMem_mem {base sbase : Nat} {stab : List UInt8} {ts : List Tag} (h : wf base sbase stab ts = true)
+    (stop : Nat) :
+    (visitMemRegions (mkMem base sbase stab ts) stop).2.2 =
+      mkMem base sbase stab (normFirst (visitMemRegions (mkMem base sbase stab ts) stop).1.length ts) := by
+  have h6 : tagMemoryMap = 6 := rfl
+  cases hf : firstOf 6 ts with
+  | none =>
+    have hnone : ∀ y ∈ ts, y.typeNo ≠ 6 := by
+      intro y hy h6'
+      have : ∀ (l : List Tag), y ∈ l → firstOf 6 l ≠ none := by
+        intro l
+        induction l with
+        | nil => intro hm; simp at hm
+        | cons z zs ih =>
+          intro hm
+          unfold firstOf
+          split
+          · simp
+          · rename_i hz
+            rcases List.mem_cons.1 hm with hm | hm
+            · subst hm; exact absurd h6' hz
+            · exact ih hm
+      exact this ts hy hf
+    rw [normFirst_none _ ts hnone]
+    unfold visitMemRegions
+    rw [h6, find_absent h hf]
+    simp
+  | some x =>
+    obtain ⟨pre, post, hsplit, hpre⟩ := split_first hf
+    have hw := tag_wf_of_wf h (mem_of_first hf)
+    have hb := bounds_of_wf h
+    obtain ⟨esz, ver, ents, hx⟩ := (typeNo_cases hw).1 (typeNo_of_first hf)
+    subst hx
+    simp only [Tag.wf, Bool.and_eq_true, List.all_eq_true, decide_eq_true_eq] at hw
+    obtain ⟨⟨⟨he24, he32⟩, _⟩, hents⟩ := hw
+    have hesz : 20 ≤ esz := by omega
+    have hbl : (Tag.mmap esz ver ents).body.length = 8 + ents.length * esz := by
+      simp [Tag.body, length_le, length_encEntries hesz]; omega
+    have hfind : findTag (mkMem base sbase stab ts) 6 =
+        .ok (base + 8 + (encTags pre).length + 8, 8 + ents.length * esz) := by
+      rw [findTag_encode h]
+      have := locate_split 6 pre (.mmap esz ver ents) post (base + 8) hpre rfl
+      rw [← hsplit] at this
+      rw [this]; simp only [hbl]
+    have henc := encode_mmap_split hesz pre post ver ents
+    rw [← hsplit] at henc
+    have hblk : (mkMem base sbase stab ts).blk =
+        mmapA pre post esz ver ents.length ++ ents.flatMap (encEntry esz) ++ mmapB post esz ents.length := henc
+    have hAlen : (mmapA pre post esz ver ents.length).length = 8 + (encTags pre).length + 16 := by
+      simp [mmapA, length_le]; omega
+    have htot : (encTags ts).length =
+        (encTags pre).length + (8 + (8 + ents.length * esz) + padLen (8 + ents.length * esz) + (encTags post).length) := by
+      rw [hsplit]
+      have : encTags (pre ++ .mmap esz ver ents :: post) = encTags pre ++ (encTag (.mmap esz ver ents) ++ encTags post) := by
+        simp [encTags]
+      rw [this]; simp only [List.length_append, length_encTag, hbl] <;> omega
+    have hhdr : At (mkMem base sbase stab ts) (base + 8 + (encTags pre).length + 8) (le 4 esz) := by
+      have h0 : (mkMem base sbase stab ts).blk = (le 4 (16 + ((encTags pre).length + (8 + (8 + ents.length * esz) +
+          padLen (8 + ents.length * esz) + (encTags post).length))) ++ (le 4 0 ++ (encTags pre ++ (le 4 6 ++
+          le 4 (8 + (8 + ents.length * esz)))))) ++ le 4 esz ++ (le 4 ver ++ (ents.flatMap (encEntry esz) ++ mmapB post esz ents.length)) := by
+        rw [hblk]; simp [mmapA, List.append_assoc]
+      have := At.of_blk h0
+      simp only [length_le, List.length_append, mkMem] at this
+      have e : base + (4 + (4 + ((encTags pre).length + (4 + 4)))) = base + 8 + (encTags pre).length + 8 := by omega
+      rwa [e] at this
+    unfold visitMemRegions
+    rw [h6, hfind]
+    have hn0 : ¬ (8 + ents.length * esz = 0) := by omega
+    simp only [hn0, if_false]
+    have e1 : (base + 8 + (encTags pre).length + 8 + (8 + ents.length * esz)) % 2^64 =
+        base + 8 + (encTags pre).length + 8 + 8 + ents.length * esz := by omega
+    have e2 : (base + 8 + (encTags pre).length + 8 + 8) % 2^64 = base + 8 + (encTags pre).length + 8 + 8 := by omega
+    rw [e1, e2]
+    have hfuel : ents.length < (mkMem base sbase stab ts).blk.length + 1 + stop := by
+      have : ents.length ≤ ents.length * esz := Nat.le_mul_of_pos_right _ (by omega)
+      have := length_encode ts
+      simp only [mkMem]; omega
+    obtain ⟨p1, p2, p3, p4⟩ := memLoop_mem (hdr := base + 8 + (encTags pre).length + 8) hesz he32 ents
+      (mkMem base sbase stab ts) (base + 8 + (encTags pre).length + 8 + 8) stop _ _ _ hblk
+      (by rw [hAlen]; simp only [mkMem]; omega) hhdr (by omega)
+      (fun e he => by have := hents e he; omega) hfuel rfl (by omega)
+    refine mem_eq p1 ?_ p2 p3
+    rw [p4]
+    rw [hsplit, normFirst_split _ esz ver ents post pre hpre, encode_mmap_split hesz, length_normEnts]
 
 end Firefly.MBProof
